@@ -373,6 +373,9 @@ def evaluate(case, io, mo, S=None, memreports=None):
         if b.endswith("= strs") and a.endswith("= NULL") and a[:-4] == b[:-4]:
             continue
         pq, pm = parse_q(a), parse_q(b)
+        if "NODICT" in a and pq:
+            fails.append(Fail(pq[1], "object '%s' does not exist (its load returned NULL)" % pq[0], cmd, classes_for(meta, pq[0], pq[1], ""), pq[0]))
+            continue
         if not pq or not pm:
             fails.append(Fail(cmd.split()[0] if cmd else "?", "impl '%s' vs model '%s'" % (a[:200], b[:200]), cmd))
             continue
